@@ -95,6 +95,7 @@ template<bool iomode> void CustomTabulated::read(std::istream &is){
     }else{
         int num_description = 0;
         is.read((char*) &num_description, sizeof(int));
+        if (is.fail() or num_description < 0) throw std::runtime_error("ERROR: wrong binary format of custom tables, invalid length of the description");
         std::vector<char> desc((size_t) num_description+1);
         is.read(desc.data(), num_description);
         desc[num_description] = '\0';
